@@ -81,10 +81,30 @@ type c03Table struct {
 	useNF, useNA bool
 	sawNF, sawNA bool
 	nilAccepted  bool
+	// replaced fallback handlers that ran nevertheless
+	staleNF, staleNA bool
 }
 
-func (tb *c03Table) installFallbacks(nf, na bool) {
+func (tb *c03Table) installFallbacks(nf, na, preinstall bool) {
 	tb.useNF, tb.useNA = nf, na
+	if preinstall {
+		// custom handlers were installed earlier (as a server option does) and are then replaced or reset with nil:
+		// the answer must follow the LAST call of each setter
+		tb.rt.SetNotFoundHandler(http.HandlerFunc(func(w http.ResponseWriter, r *http.Request) {
+			tb.staleNF = true
+			w.WriteHeader(http.StatusNotFound)
+		}))
+		tb.rt.SetNotAllowedHandler(http.HandlerFunc(func(w http.ResponseWriter, r *http.Request) {
+			tb.staleNA = true
+			w.WriteHeader(http.StatusMethodNotAllowed)
+		}))
+		if !nf {
+			tb.rt.SetNotFoundHandler(nil)
+		}
+		if !na {
+			tb.rt.SetNotAllowedHandler(nil)
+		}
+	}
 	if !nf && na {
 		tb.rt.SetNotFoundHandler(nil) // an explicit reset to the default not-found answer
 	}
@@ -161,6 +181,11 @@ func (tb *c03Table) request(m *vk.M, desc func() string, method, p string) strin
 	if pv, panicked := vk.Recover(func() { tb.rt.ServeHTTP(rec, req) }); panicked {
 		m.Violate("C03:router-panic", desc(), "%s %q: ServeHTTP panicked: %v", method, p, pv)
 		return "panic"
+	}
+	if tb.staleNF || tb.staleNA {
+		m.Violate("C03:replaced-fallback-handler-ran", desc(), "%s %q: a not-found (%v) / not-allowed (%v) handler that had been replaced by a later Set...Handler call ran (status %d)", method, p, tb.staleNF, tb.staleNA, rec.Code)
+		tb.staleNF, tb.staleNA = false, false
+		return "stale-fallback"
 	}
 	segs := c03Segs(path.Clean(p))
 	var matches []c03Route
@@ -436,12 +461,13 @@ func TestVerifC03Router(t *testing.T) {
 			extra = append(extra, path.Clean(reg.Pattern)) // the pattern text itself as a request path
 		}
 		useNF, useNA := r.Intn(3) == 0, r.Intn(3) == 0
+		preinstall := r.Intn(4) == 0
 		if !m.Only(idx) {
 			continue
 		}
-		desc := func() string { return fmt.Sprintf("case=%d;%s notFound=%v notAllowed=%v", idx, vk.JSON(regs), useNF, useNA) }
+		desc := func() string { return fmt.Sprintf("case=%d;%s notFound=%v notAllowed=%v replacedEarlierFallbacks=%v", idx, vk.JSON(regs), useNF, useNA, preinstall) }
 		tb := &c03Table{rt: NewRouter().(*patRouter)}
-		tb.installFallbacks(useNF, useNA)
+		tb.installFallbacks(useNF, useNA, preinstall)
 		v0 := m.ViolCount()
 		// registration interleaved with serving: after the first half of the registrations a sample of
 		// requests is served (answers such as 405 + Allow must not be remembered), then the rest is registered
